@@ -54,7 +54,8 @@ def op1(ctx):
     for name in ("map_mut_in", "map_in"):
         b = ctx.facts.one(r"^memory::Memory::<R, PR, H>::%s$" % name)
         ev, res = ctx.eval(b, no_inline=(r"\{closure",))
-        maps = [e for e in res.log if e["kind"] == "call" and not e["chain"] and re.search(r"FnOnce.*::call_once$", e["callee"]) and e["args"] and e["args"][0] == ("param", 2, "f")]
+        # the mapping function is the closure / fn parameter, whatever its position in the signature
+        maps = [e for e in res.log if e["kind"] == "call" and not e["chain"] and re.search(r"FnOnce.*::call_once$", e["callee"]) and e["args"] and tag(e["args"][0]) == "param"]
         if len(maps) != 1:
             yield Ob(key_of("C09-Op1", b.path, "map-call"), False, "expected exactly one call of the mapping function f, found %d" % len(maps), b.loc())
             continue
@@ -428,7 +429,8 @@ def op8(ctx):
         got = None
         if calls:
             e = calls[0]
-            f = e["args"][2] if len(e["args"]) > 2 else None
+            fns = [a for a in e["args"] if tag(a) == "fn"]
+            f = fns[0] if len(fns) == 1 else None
             got = (e["callee"].split("::")[-1], f[1] if tag(f) == "fn" else show(f))
             ok = ok and got == want
         yield Ob(key_of("C09-Op8", b.path, "constructor"), ok, "%s -> %s (expected %s)" % (b.name, got, want), b.loc())
